@@ -107,6 +107,7 @@ def _has_char(lang, c):
 
 
 _cache = {}
+_cells = {}
 
 
 def _group_width(sub):
@@ -199,6 +200,49 @@ def analyse(rx, shape):
                 if x[0] == "lit":
                     ok = off == 0 and cells[k][0] == "c" and cells[k][1] == x[1]
                     k += 1
+                elif x[3] is None and off == 0 and not (
+                        cells[k][0] == "p" and (xi + 1 == len(alt) and k + 1 == len(cells))):
+                    # a variable-width group: it takes the cells up to the delimiter that
+                    # follows it in the pattern (or all the rest when it is the last item)
+                    nxt = alt[xi + 1] if xi + 1 < len(alt) else None
+                    if nxt is None:
+                        end = len(cells)
+                    elif nxt[0] != "lit":
+                        ok = False
+                        break
+                    else:
+                        c = nxt[1]
+                        end = None
+                        for j in range(k, len(cells)):
+                            if cells[j][0] == "c" and cells[j][1] == c:
+                                end = j
+                                break
+                        # symbolic pieces spell digits, a sign or a decimal mark only
+                        if end is None or c.isdigit() or (c in ",.-" and any(
+                                cc[0] == "p" and cc[1][0] != "f" for cc in cells[k:end])):
+                            ok = False
+                            break
+                    if end == k:
+                        ok = False
+                        break
+                    span = _concat(_lit(cc[1]) if cc[0] == "c" else _shape_lang(cc[1])
+                                   for cc in cells[k:end])
+                    inc, w_ = relang.included(span, x[2])
+                    good_span = inc is True
+                    if nxt is not None:
+                        in_group = _has_char(x[2], c)
+                        rest = _concat(_lit(cc[1]) if cc[0] == "c" else _shape_lang(cc[1])
+                                       for cc in cells[end + 1:])
+                        in_rest = _has_char(rest, c)
+                        good_span = good_span and (in_group is False or in_rest is False)
+                    if not good_span:
+                        ok = False
+                        break
+                    if end - k == 1 and cells[k][0] == "p":
+                        groups[x[1]] = ("piece", cells[k][2])
+                    else:
+                        groups[x[1]] = ("span", k, end)
+                    k = end
                 elif cells[k][0] == "p":
                     # a group facing a symbolic piece
                     p = cells[k][1]
@@ -274,6 +318,7 @@ def analyse(rx, shape):
             if good:
                 verdict = "match"
                 res = ("match", {n: groups.get(n) for n in all_names}, obs)
+                _cells[key] = cells
             else:
                 verdict = "undecided"
             break
